@@ -13,9 +13,7 @@ pub fn ser(a: &dyn Aml) -> Vec<u8> {
     // an object may be serialised any number of times: the bytes judged are those of an object
     // that has been serialised before (into a sink that keeps nothing)
     crate::aml::build::peek(a);
-    let mut v = Vec::new();
-    a.to_aml_bytes(&mut v);
-    v
+    crate::aml::build::ser_sinks_upto(a, 8192)
 }
 
 /// deterministic text of a given length (ISA strings, platform names)
